@@ -14,7 +14,11 @@ NOT_YET = "check not built yet in this framework (planned, see DESIGN.md §4); n
 
 def main():
     checks, na = [], []
+    claimed = set(open(os.path.join(ROOT, "tools", "claimed.txt")).read().split())
     for cid in ALL:
+        if cid not in claimed:
+            na.append({"property_id": cid, "reason": NOT_YET})
+            continue
         path = os.path.join(ROOT, "rv", "checks", cid.lower() + ".py")
         if not os.path.exists(path):
             na.append({"property_id": cid, "reason": NOT_YET})
